@@ -131,7 +131,7 @@ def main():
             known_hits.setdefault(name, res.get("known_models", {}).get(name))
         for g in (res.get("groups") or []):
             desc = "%s: %s %s @ %s (x%d)" % (h["name"], g["kind"], g["msg"], g.get("where", ""), g["count"])
-            if g["kind"] in ("assert", "panic", "unwind", "budget", "deadlock") and g.get("replay", "").startswith("REPRODUCED"):
+            if g["kind"] in ("assert", "panic", "unwind", "budget", "deadlock", "race") and g.get("replay", "").startswith("REPRODUCED"):
                 violations.append((desc, g.get("replay_path", ""), g))
             else:
                 inconclusive.append(desc + " -> " + (g.get("replay") or "not replayed"))
